@@ -3,10 +3,20 @@ import PetgraphModel.GraphProto
 import PetgraphModel.Oracle.Reach
 import PetgraphModel.Oracle.Dist
 import PetgraphModel.Driver.C08
+import PetgraphModel.Driver.C07Checks
 /-
 C07 driver.  After a `graph … abstract=1` line, requests are
 
+  view enc=<encoding> d=… nb=… nodes=… ix=… edges=… out=… in=… [hasin=0] er=<s:t:eid;…> => ok
   run <algo> <args…> enc=<encoding> => <canonical answer in abstract ids>
+
+`view`: the iteration orders, `to_index` assignment and `edge_references()` order of one encoding in abstract
+ids.  For every comparison of an answer with the reference answer of another encoding the driver evaluates the
+hypotheses of the theorem `C07_<algo>_checked` (`Theorems/C07.lean`) on the two views (`Driver/C07Checks.lean`,
+`pairB`): a failure is `SPECFAIL side condition … does not hold` (the encoding's trait impls do not describe the
+abstract graph) or `SPECFAIL generator left the proved range` (the request is outside the theorem's input scope).
+So for every compared pair "the two MODEL runs answer and agree" is a proved consequence, and `ok` adds "the two
+implementations agree".
 
 For every (algo, args) the answers of all encodings must coincide (the first one seen is the
 reference) and none may panic when another succeeds.  Answers that the proved oracles determine
@@ -19,6 +29,27 @@ open PetgraphModel PetgraphModel.Oracle
 structure DState where
   g : MGraph := default
   refs : List (String × String × String) := []     -- key ↦ (encoding, answer)
+  views : List (String × EV) := []                 -- encoding ↦ its view
+
+/-- `graph0/default-space` ↦ `graph0`: walker / workspace variants run on the same encoding -/
+def baseEnc (enc : String) : String := (enc.splitOn "/").headD enc
+
+/-- `a:t,t;b:-` -/
+def parseNbrs (s : String) : List (Nat × List Nat) :=
+  if s == "-" then [] else
+  (s.splitOn ";").filterMap fun r =>
+    match r.splitOn ":" with
+    | [a, row] => a.toNat?.map fun a => (a, parseNats row)
+    | _ => none
+
+def parseErField (s : String) : List (Nat × Nat × Nat) :=
+  if s == "-" then [] else
+  (s.splitOn ";").filterMap fun t =>
+    match t.splitOn ":" with
+    | [a, b, c] => match a.toNat?, b.toNat?, c.toNat? with
+      | some a, some b, some c => some (a, b, c)
+      | _, _, _ => none
+    | _ => none
 
 def keyOf (req : List String) : String × String :=
   let ws := req.drop 1
@@ -78,16 +109,17 @@ def judgeAbs (g : MGraph) (algo : String) (args : List String) (impl : String) :
     if toString cls.length == impl then none else some s!"connected_components = {impl}, weak components: {cls.length}"
   | "dijkstra" =>
     if checkDist g arg0 (parsePairsI impl) then none else some s!"dijkstra from {arg0}: {impl} is not the shortest-distance labelling (certificate check failed)"
-  | "spfa" =>
+  | "spfa" | "bellman_ford" =>
     if impl == "negcycle" then none   -- judged by C11; here only cross-encoding agreement
     else
-      let d := (if impl == "-" then [] else impl.splitOn ",").filterMap fun p =>
+      let body := (impl.splitOn " ").headD impl      -- `bellman_ford`: `<distances> predok=<bool>`
+      let d := (if body == "-" then [] else body.splitOn ",").filterMap fun p =>
         match p.splitOn ":" with
         | [a, b] => if b == "inf" then none else match a.toNat?, b.toInt? with
           | some a, some b => some (a, b)
           | _, _ => none
         | _ => none
-      if checkDist g arg0 d then none else some s!"spfa from {arg0}: {impl} is not the shortest-distance labelling (certificate check failed)"
+      if checkDist g arg0 d then none else some s!"{algo} from {arg0}: {impl} is not the shortest-distance labelling (certificate check failed)"
   | _ => none
 
 def step (d : DState) (req : List String) (impl : String) : DState × String :=
@@ -97,12 +129,32 @@ def step (d : DState) (req : List String) (impl : String) : DState × String :=
     match parseView req with
     | none => (d, "SPECFAIL unparsable graph line")
     | some v => ({ g := v.g, refs := [] }, "ok")
+  | "view" :: _ =>
+    let enc := ((req.find? (·.startsWith "enc=")).map fun s => (s.drop 4).toString).getD "?"
+    match parseView req, field? req "er" with
+    | some v, some er =>
+      -- `neighbors(a)` (the iteration the walkers use) must list the targets of `edges(a)`, as multisets
+      let nbrs := parseNbrs ((field? req "nbrs").getD "-")
+      if v.g.nodes.all fun a => sameSet (v.succ a) ((nbrs.lookup a).getD []) then
+        ({ d with views := (enc, { v := v, er := parseErField er }) :: d.views }, "ok")
+      else (d, s!"SPECFAIL side condition neighbors = targets of edges does not hold: encoding {enc}")
+    | _, _ => (d, s!"SPECFAIL unparsable view line of encoding {enc}")
   | "run" :: algo :: _ =>
     let (key, enc) := keyOf req
     let args := (req.drop 2).filter fun w => !(w.startsWith "enc=")
     let holes := (enc.splitOn "+holes").length > 1
     -- open finding D12: page_rank on an encoding with vacant indices
     let known12 := algo == "page_rank" && holes
+    -- open finding D25: maximum_matching on directed storage (outside `C07_maximum_matching_checked`: undirected only)
+    let known25 := algo == "maximum_matching" && d.g.directed
+    let argN (i : Nat) : Nat := (args.getD i "0").toNat?.getD 0
+    -- G-A: the hypotheses of `C07_<algo>_checked` on the views of the two compared encodings
+    let scope (renc : String) : Option String :=
+      if known12 || known25 then none
+      else match d.views.lookup (baseEnc renc), d.views.lookup (baseEnc enc) with
+        | some e1, some e2 => pairWhy algo renc enc e1 e2 (argN 0) (argN 1) (argN 2)
+        | none, _ => some s!"SPECFAIL no view line for encoding {renc}"
+        | _, none => some s!"SPECFAIL no view line for encoding {enc}"
     match d.refs.find? (·.1 == key) with
     | none =>
       if impl == "panic" then
@@ -114,9 +166,10 @@ def step (d : DState) (req : List String) (impl : String) : DState × String :=
           if known12 then (d, "ok")   -- never take a D12-affected answer as the reference
           else ({ d with refs := (key, enc, impl) :: d.refs }, "ok")
     | some (_, renc, rans) =>
-      if rans == impl then (d, "ok")
+      if let some why := scope renc then (d, why)
+      else if rans == impl then (d, "ok")
       else if known12 then (d, s!"KNOWN D12 page_rank on {enc} differs from {renc}: [{impl}] vs [{rans}]")
-      else if algo == "maximum_matching" && d.g.directed && impl != "panic" && rans != "panic" then
+      else if known25 && impl != "panic" && rans != "panic" then
         (d, s!"KNOWN D25 maximum_matching on directed storage depends on the encoding: {renc}: [{rans}]  {enc}: [{impl}]")
       else if impl == "panic" then (d, s!"SPECFAIL {key}: panics on encoding {enc} but answers [{rans}] on {renc}")
       else if rans == "panic" then (d, s!"SPECFAIL {key}: panics on encoding {renc} but answers [{impl}] on {enc}")
